@@ -8,20 +8,41 @@ Model: Tahoe/Immutable/Integrity.lean — `verifyShare` = `Checker._download_and
 storage server, C22); repair itself is download (C02) followed by `upload` with the parameters of the cap.
 `VCfg.asIs` is the verifier as it is in /repo, `VCfg.repaired` the verifier with
 fixes/C45-verify-block-root.diff (the block hash tree root is taken from the validated share hash leaf). -/
+/-! ## Coverage of the statement (properties.jsonl, C45)
+
+| clause of the statement | theorem(s) over the model |
+|---|---|
+| verification reports a share good only if all of its blocks and hashes validate against the capability | `verified_good_implies_all_valid` (repaired verifier: published UEB, every block = the uploader's block, every share-hash-chain entry, every block hash, every crypttext hash = the published tree node; each share read with its own fresh trees — seed C45-a); the verifier as it was: `verified_good_counterexample` |
+| a check is healthy exactly when N distinct good shares are found | `healthy_iff_N_good` (+ the good list is duplicate-free and is exactly the share numbers some server's result lists) |
+| … recoverable exactly when at least k are | `recoverable_iff_k_good` |
+| repair using only the verify-cap produces shares that validate under the original read-cap | `repair_uses_original_parameters` (k, N from the cap, segment size from the VALIDATED UEB — seed C45-b) + `repair_regenerates_identical_shares` (a completed repair read re-publishes exactly the original cap, UEB, trees and blocks); neither uses the read key |
+| … so the file can be read from the repaired shares alone | monitor only (needs the completeness direction: honest shares are accepted and k of them decode — C03/C36); `decide` example for the example file |
+| … and it never alters existing good shares | `repair_never_alters_good_shares` (abstract storage behaviour; refinement by the storage server is C22) |
+| the post-repair results describe the grid after the repair (seed C45-c) | `post_repair_healthy_implies_N_good` |
+| count-shares-good / corrupt-share lists of `_format_results` | `healthy_iff_N_good` (count); the corrupt / incompatible lists are correspondence only (`fmt` lines) |
+| check without verification believes the servers | by definition of `ServerResult.verified` for verify=False; correspondence + monitor only |
+-/
 namespace Tahoe.C45
 open Tahoe.Integrity Tahoe.Base.Merkle
 
 variable {H : Type} [DecidableEq H]
 
 /-- **verified_good_implies_all_valid** (repaired verifier): whatever the server answers, a share that
-    `_download_and_verify` reports good carries the published UEB and every one of its blocks is the block the
-    uploader produced for that share number (so all hashes above them are the published ones, C35). -/
+    `_download_and_verify` reports good carries the published UEB, every one of its blocks is the block the
+    uploader produced for that share number, and every hash it stores — each entry of its share hash chain, each
+    node of its block hash tree, each node of its crypttext hash tree — is the corresponding node of the published
+    trees. -/
 theorem verified_good_implies_all_valid (E : Env H) (cfg : Cfg) (prm : Params) (ser : UEB H → Bytes)
     (encode : Nat → Bytes → Nat → Bytes) (ct : Bytes) (sz : Sizes) (S : Setup E cfg prm ser encode ct sz)
     (pick : List Nat → Nat) (shnum : Nat) (hsh : shnum < prm.n) (v : VView H)
     (h : verifyShare E cfg VCfg.repaired pick (upload E prm encode ser ct).cap shnum v = .good) :
     v.uebBytes = (upload E prm encode ser ct).uebBytes ∧
-    ∀ i, i < divCeil ct.length prm.segSize → v.block i = (upload E prm encode ser ct).block shnum i :=
+    (∀ i, i < divCeil ct.length prm.segSize → v.block i = (upload E prm encode ser ct).block shnum i) ∧
+    (∀ sh, v.shareHashes = some sh → ∀ i hh, (i, hh) ∈ dictOf sh →
+        Base.Merkle.get (upload E prm encode ser ct).shareT i = some hh) ∧
+    (∀ i hh, (i, hh) ∈ enumFrom 0 v.blockHashes →
+        Base.Merkle.get ((upload E prm encode ser ct).blockT shnum) i = some hh) ∧
+    (∀ i hh, (i, hh) ∈ enumFrom 0 v.ctHashes → Base.Merkle.get (upload E prm encode ser ct).ctT i = some hh) :=
   verifyShare_good S pick shnum hsh v h
 
 /-- an honest server's answers for share 0 of the two-segment example file of C02 -/
@@ -90,6 +111,41 @@ theorem repair_regenerates_identical_shares (E : Env H) (cfg : Cfg) (prm : Param
   have h := (C02.read_prefix_correct E cfg prm ser encode ct sz S pick decode guess scripts 0 ct.length).2 hdone
   have e : (ct.drop 0).take ct.length = ct := by simp
   rw [h, e]
+
+/-- **repair_uses_original_parameters**: the repairer encodes with k and N of the verify cap and the segment size
+    of the UEB the download node has VALIDATED (never a guess): on a node in any reachable state these are the
+    original encoding parameters, so `repair_regenerates_identical_shares` applies. -/
+theorem repair_uses_original_parameters (E : Env H) (cfg : Cfg) (prm : Params) (ser : UEB H → Bytes)
+    (encode : Nat → Bytes → Nat → Bytes) (ct : Bytes) (sz : Sizes) (S : Setup E cfg prm ser encode ct sz)
+    (pick : List Nat → Nat) (decode : Nat → List (Nat × Bytes) → Bytes) (history : List (Nat × Script H))
+    (p : Params)
+    (h : repairParams (upload E prm encode ser ct).cap
+          (C02.nodeAfter E cfg pick decode (upload E prm encode ser ct).cap history) = some p) :
+    p = prm := by
+  have hinv : ∀ (hist : List (Nat × Script H)) (nd : Node H), NodeInv E prm ser encode ct sz nd →
+      NodeInv E prm ser encode ct sz
+        (hist.foldl (fun nd e => (fetchSegment E cfg pick decode (upload E prm encode ser ct).cap nd e.1 e.2).2) nd) := by
+    intro hist
+    induction hist with
+    | nil => intro nd h; exact h
+    | cons e rest ih => intro nd h; exact ih _ (fetchSegment_spec S pick decode nd e.1 e.2 h).1
+  have := hinv history (Node.init H (upload E prm encode ser ct).cap) (Or.inl rfl)
+  unfold repairParams at h
+  rcases this with hk | ⟨hk, _⟩
+  · unfold C02.nodeAfter at h; rw [hk] at h; cases h
+  · unfold C02.nodeAfter at h; rw [hk] at h
+    injection h with h
+    rw [← h]
+    cases prm
+    rfl
+
+/-- after the honest fetch of segment 0 of the example file the repairer's parameters are the original ones; a
+    fresh node (nothing validated yet) yields none -/
+example :
+    let cap := (upload C02.exE C02.exPrm C02.exEncode C02.exSer C02.exCt).cap
+    let dec : Nat → List (Nat × Bytes) → Bytes := fun _ bl => (bl.head?.map (·.2)).getD []
+    repairParams cap (C02.nodeAfter C02.exE Cfg.asIs (fun _ => 0) dec cap [(0, [(0, C02.exHonest 0)])]) = some C02.exPrm ∧
+    repairParams cap (Node.init SymH cap) = none := by decide
 
 /-- the regenerated share of the example verifies good under the original cap (both verifiers) -/
 example :
